@@ -59,6 +59,10 @@ def gen(seed, tier="quick"):
     for n in [300, r.randrange(257, 600)] + ([70000] if tier == "thorough" else []):
         src = "\n".join(f"let g{i} = {i}" for i in range(n)) + f"\nfn rd() {{ return g0 + g{n - 1} + g{n // 2} }}\nprintln(rd())"
         add(f"globals-{n}", src, f"{0 + n - 1 + n // 2}\n")
+    # an interpolated string after n globals (the index of __tostring in CallGlobal is one byte)
+    for n in around(250, 256) + [300, r.randrange(257, 500)]:
+        src = "\n".join(f"let g{i} = {i}" for i in range(n)) + f'\nlet x = {n}\nprintln("hi {{x}} {{g{n // 2}}}")'
+        add(f"globals-then-fmt-{n}", src, f"hi {n} {n // 2}\n")
     # many distinct constants in one function, long straight-line bodies and long jumps
     for n in around(256) + [1000, r.randrange(300, 900)] + ([70000] if tier == "thorough" else []):
         ks = [1000003 * (i + 1) % 99991 + 100000 for i in range(n)]
